@@ -734,7 +734,7 @@ pub fn run(rng: &mut Rng, count: usize, thorough: bool, extra: &[String], outp: 
     }
 
     // ---- generated well-formed invocations
-    let max_n = if thorough { 9 } else { 7 };
+    let max_n = if thorough { 8 } else { 7 };
     for k in 0..count {
         let inst = gen_inst(rng, max_n);
         let (ifile, ifeats) = iccma_file(rng, &inst);
